@@ -4,10 +4,13 @@
 
     [returned_class_geom]: every tuple the all-atom step adds to the returned graph is about four atoms lx - ax = ay - ly
     of the cut (ligands tagged with tokens tx, ty in their templates, bonded to the ends of a bond of order 2), stored at the
-    returned keys K = (sort mapping) o phi, and WHEN NEITHER LIGAND IS CUT OFF from its anchor (same part) its class is
-        the geometric class of the marks as written (written order = position in the part)
-    unless the ligand of the second-enumerated anchor is written before its anchor, in which case it is the opposite
-    (open class second_anchor_ligand_lower).  The proof composes Compose's completion of a cut (keys, edges, hydrogens of
+    returned keys K = (sort mapping) o phi, and its class is ALWAYS pysmiles' table applied to the POSITIONS of the four atoms
+    in the concatenation of the parts ([wb] = comes earlier; the renumbering keeps the position order of any two atoms of
+    the cut):  the geometric class of the marks read with [wb] as "written before", negated when the ligand of the
+    second-enumerated anchor comes before its anchor.  Inside one part the position order IS the written order, so for
+    ligands in the part of their anchors this is the geometric class of the marks as written, or its opposite in the open
+    class second_anchor_ligand_lower; for a ligand cut off from its anchor the position order is the order of the PARTS in
+    the base graph - the root cause of the open classes cut_off_ligand_key_order / _conflict_error.  The proof composes Compose's completion of a cut (keys, edges, hydrogens of
     the molecule handed to the sort), Resolve's sort_graph / sort_edge_get, the monotonicity of the renumbering inside a
     fragment (EzSortMono.sort_mono), Dialect's copy theorem for the attribute `ez_isomer_class`, and the pair / table
     theorems of EzProofs.
@@ -39,6 +42,21 @@ Proof.
   unfold path_ok. intros H. repeat (apply andb_prop in H; destruct H as [H ?]).
   repeat match goal with X : negb (Z.eqb _ _) = true |- _ => apply negb_true_iff in X; apply Z.eqb_neq in X end.
   repeat split; assumption.
+Qed.
+
+(** positions: an atom of an earlier part comes first in the concatenation of the parts *)
+Lemma firstn_len_mono (l : list (pystr * list Z)) : forall p q, (p <= q)%nat ->
+  (length (concat (map snd (firstn p l))) <= length (concat (map snd (firstn q l))))%nat.
+Proof.
+  induction l as [|a r IH]; intros [|p] [|q] H; cbn; try lia. rewrite !app_length. specialize (IH p q). lia.
+Qed.
+Lemma owner_phi_lt C x y : NoDup (flat C) -> In x (flat C) -> In y (flat C) -> (owner C x < owner C y)%nat -> phi C x < phi C y.
+Proof.
+  intros ND Fx Fy H. destruct (owner_spec C ND x Fx) as (n1 & xs1 & i & E1 & Ni & P1). destruct (owner_spec C ND y Fy) as (n2 & xs2 & j & E2 & Nj & P2).
+  rewrite P1, P2. assert (Li : (i < length xs1)%nat) by (apply nth_error_Some; congruence).
+  pose proof (off_S C (owner C x) n1 xs1 E1) as OS.
+  assert (L : (off C (Datatypes.S (owner C x)) <= off C (owner C y))%nat) by (unfold off; apply firstn_len_mono; lia).
+  lia.
 Qed.
 
 Section EzCut.
@@ -124,8 +142,7 @@ Section EzCut.
       lx <> ax /\ lx <> ay /\ ly <> ay /\ ly <> ax /\
       (v = ez_tuple (map_get m (phi C lx)) (map_get m (phi C ax)) (map_get m (phi C ay)) (map_get m (phi C ly)) c \/
        v = ez_tuple (map_get m (phi C ly)) (map_get m (phi C ay)) (map_get m (phi C ax)) (map_get m (phi C lx)) c) /\
-      (owner C lx = owner C ax -> owner C ly = owner C ay ->
-         c = class_val (if wb ly ay then negb (geom lx ax ay ly tx ty) else geom lx ax ay ly tx ty)).
+      c = class_val (if wb ly ay then negb (geom lx ax ay ly tx ty) else geom lx ax ay ly tx ty).
   Proof.
     destruct stages as (m & K & So & Em & Inj & Kh & E & A & Tk & Fid).
     pose proof (SquashDefs.wf_nodup _ (cp_wf _ _ _ K)) as ND4.
@@ -178,11 +195,19 @@ Section EzCut.
     destruct (pair_class x y c Hres Ny) as (T1 & T2 & Nx & Hc).
     exists lx, ax, ay, ly, (s_tok x), (s_tok y), c.
     repeat (split; [first [assumption | intros ->; congruence]|]).
-    intros Ox Oy. rewrite Hc. unfold geom, wb, flag. rewrite Ela, Eaa, Eab, Elb.
-    pose proof (Fid lx Flx) as F1. pose proof (Fid ax Fax) as F2. rewrite Ox in F1.
-      pose proof (Fid ly Fly) as F3. pose proof (Fid ay Fay) as F4. rewrite Oy in F3.
-      rewrite <- (sort_mono _ _ _ _ _ Em ND4 (cp_fragid _ _ _ K) F1 F2), <- (sort_mono _ _ _ _ _ Em ND4 (cp_fragid _ _ _ K) F3 F4).
-      reflexivity.
+    (* the renumbering keeps the position order of any two atoms of the cut *)
+    assert (KO : forall u w, In u (flat C) -> In w (flat C) -> (phi C u <? phi C w) = (map_get m (phi C u) <? map_get m (phi C w))).
+    { intros u w Fu Fw. pose proof (Fid u Fu) as F1. pose proof (Fid w Fw) as F2.
+      destruct (lt_eq_lt_dec (owner C u) (owner C w)) as [[L|E0]|L].
+      - pose proof (owner_phi_lt C u w Hnd Fu Fw L) as P.
+        pose proof (sort_mono_frag _ _ _ _ _ _ Em ND4 (cp_fragid _ _ _ K) F1 F2 ltac:(lia)) as Q.
+        destruct (Z.ltb_spec (phi C u) (phi C w)), (Z.ltb_spec (map_get m (phi C u)) (map_get m (phi C w))); try lia; reflexivity.
+      - rewrite E0 in F1. exact (sort_mono _ _ _ _ _ Em ND4 (cp_fragid _ _ _ K) F1 F2).
+      - pose proof (owner_phi_lt C w u Hnd Fw Fu L) as P.
+        pose proof (sort_mono_frag _ _ _ _ _ _ Em ND4 (cp_fragid _ _ _ K) F2 F1 ltac:(lia)) as Q.
+        destruct (Z.ltb_spec (phi C u) (phi C w)), (Z.ltb_spec (map_get m (phi C u)) (map_get m (phi C w))); try lia; reflexivity. }
+    rewrite Hc. unfold geom, wb, flag. rewrite Ela, Eaa, Eab, Elb.
+    rewrite <- (KO lx ax Flx Fax), <- (KO ly ay Fly Fay). reflexivity.
   Qed.
 End EzCut.
 
@@ -213,9 +238,9 @@ Proof.
   { intros u w Fu Fw E. apply (phi_inj C u w Fu Fw). apply Inj; auto. }
   destruct Hv as [Hv|Hv]; apply ez_tuple_inj in Hv as (E1 & E2 & E3 & E4 & <-).
   - apply Eq in E1, E2, E3, E4; auto. subst lx' ax' ay' ly'.
-    exists tx, ty. repeat (split; [assumption|]). rewrite (Hc Ox Oy). unfold geom. now rewrite Wx, Wy.
+    exists tx, ty. repeat (split; [assumption|]). rewrite Hc. unfold geom. now rewrite Wx, Wy.
   - apply Eq in E1, E2, E3, E4; auto. subst lx' ax' ay' ly'.
-    exists ty, tx. repeat (split; [assumption|]). rewrite (Hc Oy Ox). unfold geom. rewrite Wx, Wy. f_equal. apply geom_cis_sym.
+    exists ty, tx. repeat (split; [assumption|]). rewrite Hc. unfold geom. rewrite Wx, Wy. f_equal. apply geom_cis_sym.
 Qed.
 
 (** being in one part, and the written order inside a part, do not depend on the order of the parts *)
